@@ -7,8 +7,10 @@ package imapclient
 
 import (
 	"crypto/tls"
+	"io"
 
 	"github.com/emersion/go-imap/v2"
+	"github.com/emersion/go-imap/v2/internal/imapwire"
 )
 
 // ---------------------------------------------------------------------------
@@ -90,3 +92,24 @@ var _ *tls.Config // used by //@ func headers
 //@ func (c *Client) handleSearch() (err error)
 //@   callsite SeqSet.AddNum(s *imap.SeqSet, nums []uint32) requires forall k int :: 0 <= k && k < len(nums) ==> nums[k] != 0
 //@   callsite UIDSet.AddNum(s *imap.UIDSet, uids []imap.UID) requires forall k int :: 0 <= k && k < len(uids) ==> uids[k] != 0
+
+// ---------------------------------------------------------------------------
+// C18: APPEND literals. Without a continuation request (non-synchronising
+// literal) the payload is at most 4096 bytes and LITERAL- is available.
+
+//@ func (ce *commandEncoder) Literal(size int64) (result io.WriteCloser)
+//@   props C18:callsite,post,pre@call
+//@   requires ce != nil && ce.client != nil && ce.Encoder != nil
+//@   callsite Encoder.Literal(e *imapwire.Encoder, sz int64, sync *imapwire.ContinuationRequest) requires sz == size && (sync == nil ==> size <= 4096 && imap.HasLiteralMinusSpec(ce.client.caps))
+
+// beginCommand configures the wire encoder from the negotiated capabilities.
+//
+//@ func (c *Client) beginCommand(name string, cmd command) (result *commandEncoder)
+//@   props C18:post,pre@call
+//@   ensures result != nil && result.Encoder != nil
+//@   ensures result.Encoder.LiteralMinus == imap.HasLiteralMinusSpec(c.caps)
+//@   ensures result.Encoder.LiteralPlus == imap.HasLiteralPlusSpec(c.caps)
+//@   ensures result.Encoder.QuotedUTF8 == (imap.HasIMAP4rev2Spec(c.caps) || imap.HasUTF8AcceptSpec(c.enabled))
+
+var _ io.Writer
+var _ *imapwire.Encoder
